@@ -42,6 +42,7 @@ type daemonOpts struct {
 	auditPath string
 	noFifos   bool
 	logLevel  string // "" => error
+	extra     []string // further command-line flags
 }
 
 func startDaemon(o daemonOpts) (*daemon, error) {
@@ -76,7 +77,7 @@ func startDaemon(o daemonOpts) (*daemon, error) {
 		lvl = "error"
 	}
 	d.cmd = exec.Command(binPath,
-		"-sshd-pipe-path", d.sshdPath, "-auditd-pipe-path", d.auditPath, "-app-events-output", d.outPath, "-log-level", lvl)
+		append([]string{"-sshd-pipe-path", d.sshdPath, "-auditd-pipe-path", d.auditPath, "-app-events-output", d.outPath, "-log-level", lvl}, o.extra...)...)
 	d.cmd.Env = append(os.Environ(), "NODE_NAME="+vNode, "GOTRACEBACK=all",
 		"GORACE=halt_on_error=0 exitcode=0 atexit_sleep_ms=0 log_path="+filepath.Join(dir, "race"))
 	d.cmd.Stderr = d.stderr
